@@ -19,24 +19,29 @@ def insertByIdx {α} (x : Nat × α) : List (Nat × α) → List (Nat × α)
 def sortByIdx {α} (l : List (Nat × α)) : List (Nat × α) := l.foldr insertByIdx []
 
 /-- the cell-type blocks that contain at least one cell, keyed and sorted by VTK type index -/
-def typedBlocks (F : WFields) : Option (List (Nat × String × List (List Nat))) := do
-  let bs ← mapM' (fun (b : String × List (List Nat)) => do
-      let i ← cellTypeIndex b.1
-      some (i, b.1, b.2)) (F.cells.filter fun b => !b.2.isEmpty)
-  some (sortByIdx bs)
+def typedBlocks (F : WFields) : Option (List (Nat × String × List (List Nat))) :=
+  (mapM' (fun (b : String × List (List Nat)) => (cellTypeIndex b.1).map fun i => (i, b.1, b.2))
+      (F.cells.filter fun b => !b.2.isEmpty)).map sortByIdx
 
-def normalise (F : WFields) : Option RFields := do
-  let blocks ← typedBlocks F
-  let cells := blocks.map fun b => (b.2.1, b.2.2)
-  let pf := F.pf.map fun f => RField.mk f.1 f.2.dt (prod f.2.tail) f.2.items
-  let names := dedup (F.cf.map (·.1))
-  let cf ← mapM' (fun n => do
-      let first ← (F.cf.find? (·.1 == n))
-      let per := blocks.map fun b =>
-        (b.2.1, (F.cf.filter fun f => f.1 == n && f.2.1 == b.2.1).flatMap (·.2.2.items))
-      some (RCellField.mk n first.2.2.dt (prod first.2.2.tail) per)) names
-  let p3 := F.points.map (make3d id)
-  some ⟨if F.dim = 3 then F.ptype else "float64", p3.flatMap id, cells, pf, cf⟩
+/-- one cell field: name, dtype and component count of the first field of that name, and per block
+    (in the order of `blocks`) the bits of that block's cells -/
+def normCellField (F : WFields) (blocks : List (Nat × String × List (List Nat))) (n : String) : Option RCellField :=
+  match F.cf.find? (·.1 == n) with
+  | none => none
+  | some first =>
+    some (RCellField.mk n first.2.2.dt (prod first.2.2.tail)
+      (blocks.map fun b => (b.2.1, (F.cf.filter fun f => f.1 == n && f.2.1 == b.2.1).flatMap (·.2.2.items))))
+
+def normalise (F : WFields) : Option RFields :=
+  match typedBlocks F with
+  | none => none
+  | some blocks =>
+    match mapM' (normCellField F blocks) (dedup (F.cf.map (·.1))) with
+    | none => none
+    | some cf =>
+      some ⟨if F.dim = 3 then F.ptype else "float64", (F.points.map (make3d id)).flatMap id,
+            blocks.map fun b => (b.2.1, b.2.2),
+            F.pf.map fun f => RField.mk f.1 f.2.dt (prod f.2.tail) f.2.items, cf⟩
 
 /-! ### the hypothesis under which `readVtu (writeVtu F) = normalise F` is claimed -/
 
@@ -69,5 +74,18 @@ def hyp (F : WFields) : Bool :=
        | some f0 => F.cf.all fun f => f.1 != n || (f.2.2.dt == f0.2.2.dt && f.2.2.tail == f0.2.2.tail))) &&
   -- a cell field needs at least one cell (the writer cannot deduce the component count otherwise)
   (F.cf.isEmpty || (F.cells.any fun b => !b.2.isEmpty))
+
+/-- every written array has fewer than 2^64 payload bytes (the `UInt64` header holds the true length), the
+    offsets fit `int64`: no array of the data set has 2^61 or more scalars.  Always true in practice; it is a
+    separate hypothesis because it is about the size of the data, not about its form. -/
+def sizeOk (F : WFields) : Bool :=
+  decide (F.points.length * 24 < 256 ^ 8) &&
+  decide ((allCells F.cells).length * 8 < 256 ^ 8) &&
+  decide (((allCells F.cells).flatMap (·.2)).length * 8 < 256 ^ 8) &&
+  F.pf.all (fun f => decide (f.2.items.length * 8 < 256 ^ 8)) &&
+  (dedup (F.cf.map (·.1))).all (fun n =>
+    match cellFieldValues F n with
+    | some v => decide (v.items.length * 8 < 256 ^ 8)
+    | none => true)
 
 end Fc.W.Spec
